@@ -568,8 +568,8 @@ def run(ck: Check):
     explore_likelihood_terms(ck, found)
     # magnitude contrast between the samples of one batch under the rescued / rescaled pruning pass (16 taxa,
     # single and double precision): one sample with very short or very long branches, the others ordinary
-    t_mc = time.time() + (20 if not ck.thorough() else 90)
-    for case in CS.magnitude_contrast_cases():
+    t_mc = time.time() + (10 if not ck.thorough() else 90)
+    for case in CS.magnitude_contrast_cases(ck.thorough()):
         explore_specials(ck, case, found, budget=t_mc)
     explore_routes(ck, found)
     ck.extra["tensor_constructors_without_dtype_or_device_in_anchored_files"] = scan_constructors_without_dtype()
@@ -630,7 +630,7 @@ def report(ck, found):
                     else "a number is returned that has no per-sample rows and differs from the slices")
             if rep.get("special"):
                 sp = rep["special"]
-                what = (f"with {sp['parameter']} = {sp['value']} in sample {sp['pool_index']} only, an ordinary "
+                what = (f"with {sp['parameter']} = {sp['value']} in sample {sp['pool_index']} only, a "
                         f"sample's {what}")
         sig = key_signature((base, B, kind), rep)
         ck.violation(sig, f"{name}: batched {rep['batched'] or 'nothing'} with sample shape {list(ss)}: {what}", rep)
